@@ -254,5 +254,28 @@ func runDirected(res *core.CaseResult, c core.CaseDesc) {
 		if !isClosed(whenAC) {
 			res.Violate("C06/lost/when/subscribed-while-transition-finishes", "When[B C] is still open after B and C were added", nil)
 		}
+	case 14: // a state that stays activated by a transition whose later final handler faults
+		m := mk(am.Schema{"A": {}, "B": {After: am.S{"A"}}, "C": {}})
+		_, _ = m.HandlersBindMaps(nil, map[string]am.HandlerFinal{
+			"AState": func(*am.Event) {},
+			"BState": func(*am.Event) { panic("c06 fault") },
+		})
+		whenA := m.When1("A", nil)
+		timeA := m.WhenTime1("A", 1, nil)
+		m.Add(am.S{"A", "B"}, nil)
+		m.Add1("C", nil)
+		<-m.WhenQueueEnds()
+		if !m.Is1("A") {
+			// the rollback took A as well: nothing to wait for
+			res.Count("fault_case_not_applicable", 1)
+			return
+		}
+		if !isClosed(whenA) {
+			res.Violate("C06/lost/when/activated-by-a-faulted-transition", fmt.Sprintf(
+				"When[A] is open although A is active (tick %d): the transition that activated A faulted in B's final handler afterwards, and two more transitions have run since (%s)", m.Tick("A"), m.String()), nil)
+		}
+		if !isClosed(timeA) {
+			res.Violate("C06/lost/whentime/activated-by-a-faulted-transition", fmt.Sprintf("WhenTime[A>=1] is open although A is at tick %d", m.Tick("A")), nil)
+		}
 	}
 }
